@@ -1,0 +1,28 @@
+//go:build verif && verif_ipa
+
+package ipa
+
+import "github.com/crate-crypto/go-ipa/bandersnatch/fr"
+
+// Verification hooks (build tags verif+verif_ipa only): read access to the
+// precomputed weight tables and to the Fiat-Shamir label slices.
+
+// VerifTables returns the (shared) barycentric weight and inverted domain tables.
+func (preComp *PrecomputedWeights) VerifTables() (barycentricWeights, invertedDomain []fr.Element) {
+	return preComp.barycentricWeights, preComp.invertedDomain
+}
+
+// VerifLabels returns the label slices extended to their full capacity.
+func VerifLabels() map[string][]byte {
+	full := func(b []byte) []byte { return b[:cap(b)] }
+	return map[string][]byte{
+		"ipa.labelDomainSep":   full(labelDomainSep),
+		"ipa.labelC":           full(labelC),
+		"ipa.labelInputPoint":  full(labelInputPoint),
+		"ipa.labelOutputPoint": full(labelOutputPoint),
+		"ipa.labelW":           full(labelW),
+		"ipa.labelL":           full(labelL),
+		"ipa.labelR":           full(labelR),
+		"ipa.labelX":           full(labelX),
+	}
+}
